@@ -2,17 +2,23 @@
   Driver/Render.lean — `NEW render <method> <charset> <jsonIndent> <xmlIndent>` sessions (C17).
   One Flame instance with `Renderer(opts)`; every op line is one request.
 
-  ops:  R bin  <status> <pre> <payload>
-        R txt  <status> <pre> <payload>
-        R json <status> <pre> <rt> <valueSpec> <encoderBytes> <ok|err:<msg>>
-        R xml  <status> <pre> <rt> <valueSpec> <encoderBytes> <ok|err:<msg>>
+  ops:  R bin  <status> <pre> <payload> <wire>
+        R txt  <status> <pre> <payload> <wire>
+        R json <status> <pre> <rt> <valueSpec> <encoderBytes> <ok|err:<msg>> <wire>
+        R xml  <status> <pre> <rt> <valueSpec> <encoderBytes> <ok|err:<msg>> <wire>
+          wire = 1: the harness ALSO serves this request through a real net/http server and client
+                 and compares what the client receives with what was handed to the writer (only
+                 asked for where net/http transmits faithfully: not HEAD, codes 200..599 but 204/304)
           pre = n | comma-separated atoms  c:<contentType>  h:<code>  w:<bytes>
                 (what the handler does to the ResponseWriter before it calls the renderer)
           rt  = 1 when the generator claims the value survives encode→decode unchanged
           encoderBytes / msg = what the STANDARD encoder (not flamego) produced for the value with
                 the session's indentation: the encoder is a parameter of the model, so its output
                 arrives as data; valueSpec is only for the harness.
-  out:  <rec.Code> <live Content-Type> <Content-Type the client gets> <body> <decode token>
+  out:  <rec.Code> live=<headers in the live map> sent=<headers the client gets> <body> <decode token>
+        len=<none|ok|bad> wire=<-|ok|bad>
+          headers: every header name, sorted, `name:hexvalue` for Content-Type,
+          X-Content-Type-Options and Content-Length, the bare name for any other
 
         V <chainA> <chainB>     two routes on a fresh instance; requests /a, /b, /a
           chain letters: R Renderer (the j-th one has Charset "c<j>")  P handler taking Render
@@ -50,25 +56,49 @@ def firstHdr : List Writer.UEv → Option Nat
   | .hdr c :: _ => some c
   | _ :: t => firstHdr t
 
-def showResp (r : Resp) (dec : String) : String :=
+/-- header names whose values are printed (the ones the renderer or `http.Error` may set, plus
+    Content-Length); any other header is printed by name only -/
+def shownValues : List String := ["Content-Type", "X-Content-Type-Options", "Content-Length"]
+
+def insertSorted (x : String × String) : List (String × String) → List (String × String)
+  | [] => [x]
+  | y :: ys => if x.1 < y.1 then x :: y :: ys else y :: insertSorted x ys
+
+/-- a header map as `name:hexvalue,name:hexvalue` sorted by name (`-` when empty) -/
+def showHdr (h : Hdr) : String :=
+  let items := h.map fun (k, v) =>
+    let name := Bytes.toStringLossy k
+    (name, if shownValues.contains name then s!"{name}:{v.toHex}" else name)
+  let sorted := items.foldl (fun acc x => insertSorted x acc) []
+  if sorted.isEmpty then "-" else joinWith "," (sorted.map (·.2))
+
+/-- self-consistency of a Content-Length the client is told: it must be the number of body bytes
+    handed to the wrapped writer -/
+def lenToken (r : Resp) : String :=
+  match (r.sent.getD r.hdr).get b!"Content-Length" with
+  | none => "len=none"
+  | some v => if (Bytes.toStringLossy v).toNat? == some r.body.length then "len=ok" else "len=bad"
+
+def showResp (r : Resp) (dec wire : String) : String :=
   let code := (firstHdr r.w.under).getD 200          -- httptest: Code is 200 until a status arrives
-  s!"{code} {(r.liveContentType.getD []).toHex} {(r.sentContentType.getD []).toHex} {r.body.toHex} {dec}"
+  let wireTok := if wire == "1" then "wire=ok" else "wire=-"   -- a faithful server delivers what it was handed
+  s!"{code} live={showHdr r.hdr} sent={showHdr (r.sent.getD r.hdr)} {r.body.toHex} {dec} {lenToken r} {wireTok}"
 
 def request (head : Bool) (o : Opts) : List String → Option String
-  | ["R", "bin", st, pre, b] =>
+  | ["R", "bin", st, pre, b, wire] =>
     let r := (Resp.init head).run (parsePre pre)
-    some (showResp (render (lineEnc {}) o (natOf st) (.binary (hexOf b)) r) "-")
-  | ["R", "txt", st, pre, b] =>
+    some (showResp (render (lineEnc {}) o (natOf st) (.binary (hexOf b)) r) "-" wire)
+  | ["R", "txt", st, pre, b, wire] =>
     let r := (Resp.init head).run (parsePre pre)
-    some (showResp (render (lineEnc {}) o (natOf st) (.plainText (hexOf b)) r) "-")
-  | ["R", k, st, pre, rt, _spec, encb, err] =>
+    some (showResp (render (lineEnc {}) o (natOf st) (.plainText (hexOf b)) r) "-" wire)
+  | ["R", k, st, pre, rt, _spec, encb, err, wire] =>
     let eb := hexOf encb
     let out : EncOut := { chunks := if eb.isEmpty then [] else [eb], err := parseErr err }
     let r := (Resp.init head).run (parsePre pre)
     let dec := if out.err.isSome then "enc-error" else if head then "decodes-nobody"
                else if rt == "1" then "decodes-ok" else "decodes-skip"
-    if k == "json" then some (showResp (render (lineEnc out) o (natOf st) (.json ()) r) dec)
-    else if k == "xml" then some (showResp (render (lineEnc out) o (natOf st) (.xml ()) r) dec)
+    if k == "json" then some (showResp (render (lineEnc out) o (natOf st) (.json ()) r) dec wire)
+    else if k == "xml" then some (showResp (render (lineEnc out) o (natOf st) (.xml ()) r) dec wire)
     else none
   | _ => none
 
